@@ -24,6 +24,7 @@ CONSTANTS Configs,        \* set of records [n, block, retries, preload, release
           Disposals,      \* how the caller may dispose of a returned response
           MaxHeld,        \* responses the caller may still hold when it issues the next request
           Cuts,           \* TRUE: the server may cut one idle pooled connection between steps
+          BadArgs,        \* TRUE: a request may carry an invalid per-request timeout (fails before any checkout)
           KnownDefects,   \* subset of {"C01_F1"} \cup design mutants {"M_CloseNoRelease", ...}
           TreeTraits      \* behaviours that differ between revisions of the tree and do not matter to the Rules;
                           \* the check detects them on the tree under test (see vh/c01.py: detect_traits):
@@ -41,7 +42,10 @@ SendSyms    == {"s_epipe", "s_reset", "s_oserr", "s_boom"}
 RecvSyms    == {"r_timeout", "r_reset", "r_eof", "r_garbage", "r_ssl", "r_boom"}
 ReplySyms   == {"ok_ka", "ok_close", "s503_ka", "s503_close", "r302_ka", "r302_close", "short",
                 "b_boom", "b_reset", "b_timeout"}
-AllSyms     == ConnectSyms \cup SendSyms \cup RecvSyms \cup ReplySyms \cup {"x_stale"}
+\* the connection object cannot even be built after the slot was checked out (ConnectionCls constructor raises:
+\* http.client.InvalidURL for a host with a blank, or a BaseException)
+NewSyms     == {"n_invalid", "n_boom"}
+AllSyms     == NewSyms \cup ConnectSyms \cup SendSyms \cup RecvSyms \cup ReplySyms \cup {"x_stale"}
 
 (* =============================== Rules (the property) =============================== *)
 \* the queue is a bounded LIFO; these two operators are its whole semantics
@@ -54,8 +58,15 @@ SlotsRestoredOn(q, n)        == Len(q) = n
 \* qsocks[i] = socket of the i-th queue item (0: placeholder or closed connection object)
 NoOrphanOn(qsocks, open)     == \A s \in open : \E i \in 1..Len(qsocks) : qsocks[i] = s
 BlockBoundOn(block, open, n) == block => Cardinality(open) <= n
-\* o = [res |-> "response"|"raised", cls |-> "urllib3"|"raw"|"interrupt"|"none", inj |-> BOOLEAN]
-OnlyUrllib3On(o)             == (o.res = "raised" /\ ~o.inj) => o.cls = "urllib3"
+\* Slot accounting at every instant.  leases = checkouts (an item taken, or a fresh connection made because a
+\* non-blocking pool was empty) minus give-backs (_put_conn calls, whether the item entered the queue or was
+\* discarded as surplus).  A put without a checkout drives it negative (at once, or when the real holder returns).
+SlotsConservedOn(qlen, leases, n, block) ==
+    leases >= 0 /\ (IF block THEN qlen + leases = n ELSE qlen + leases >= n)
+\* o = [res |-> "response"|"raised", cls |-> "urllib3"|"raw"|"interrupt"|"caller"|"none", inj |-> BOOLEAN]
+\* cls = "caller": the caller passed an invalid argument and got the ValueError / TypeError saying so -- that is the
+\* caller's own error, not a failure of the request, and is accepted (latitude); anything else raw is not.
+OnlyUrllib3On(o)             == (o.res = "raised" /\ ~o.inj) => o.cls \in {"urllib3", "caller"}
 InterruptsOn(o)              == o.inj => (o.res = "raised" /\ o.cls = "interrupt")
 
 (* =============================== Model =============================== *)
@@ -68,13 +79,14 @@ VARIABLES cfg,     \* configuration of this history (immutable)
           pc, cur, plan, att, ret, err, clean, rel, pend, rcur, nd, inj,
           outs,    \* outcomes seen by the caller: requests and disposals
           hist,    \* environment choices + expected observations (emission)
-          ncut
+          ncut,
+          leases   \* checkouts minus give-backs (see SlotsConservedOn)
 vars == <<cfg, queue, conns, socks, resp, rof, pc, cur, plan, att, ret, err, clean, rel, pend, rcur, nd, inj,
-          outs, hist, ncut>>
+          outs, hist, ncut, leases>>
 
 Has(d) == d \in KnownDefects \cup TreeTraits
 
-World == [q |-> queue, cn |-> conns, sk |-> socks, rs |-> resp, full |-> FALSE]
+World == [q |-> queue, cn |-> conns, sk |-> socks, rs |-> resp, full |-> FALSE, ls |-> leases]
 
 \* HTTPConnection.close(): socket closed, per-connection state reset, pending http.client response closed
 WClose(w, c) ==
@@ -87,9 +99,9 @@ WClose(w, c) ==
 
 \* _put_conn(c): put, or on queue.Full close and discard
 WPut(w, c) ==
-    IF QHasRoom(w.q, cfg.n) THEN [w EXCEPT !.q = Append(@, c)]
-    ELSE IF Has("M_FullNoClose") THEN [w EXCEPT !.full = TRUE]
-    ELSE [WClose(w, c) EXCEPT !.full = TRUE]
+    IF QHasRoom(w.q, cfg.n) THEN [w EXCEPT !.q = Append(@, c), !.ls = @ - 1]
+    ELSE IF Has("M_FullNoClose") THEN [w EXCEPT !.full = TRUE, !.ls = @ - 1]
+    ELSE [WClose(w, c) EXCEPT !.full = TRUE, !.ls = @ - 1]
 
 \* HTTPResponse.release_conn()
 WRelease(w, k) ==
@@ -168,51 +180,76 @@ Init == /\ cfg \in Configs
         /\ conns = <<>> /\ socks = <<>> /\ resp = <<>> /\ rof = <<>>
         /\ pc = "idle" /\ cur = NONE /\ plan = "" /\ att = <<>> /\ ret = RetryInit("F") /\ err = ""
         /\ clean = FALSE /\ rel = FALSE /\ pend = "" /\ rcur = 0 /\ nd = 0 /\ inj = FALSE
-        /\ outs = <<>> /\ hist = <<>> /\ ncut = 0
+        /\ outs = <<>> /\ hist = <<>> /\ ncut = 0 /\ leases = 0
 
 Step(op, id, how, out) == [op |-> op, id |-> id, atts |-> att, how |-> how, out |-> out, dials |-> nd, dev |-> ""]
 
 (* ---- caller starts request number Len(rof)+1 ---- *)
 StartReq ==
     /\ pc = "idle" /\ Len(rof) < MaxReqs /\ Cardinality(Live) <= MaxHeld
-    /\ pc' = "get" /\ ret' = RetryInit(cfg.retries) /\ att' = <<>> /\ nd' = 0 /\ inj' = FALSE
+    /\ \E kind \in (IF BadArgs THEN {"get", "prefail"} ELSE {"get"}) : pc' = kind
+    /\ ret' = RetryInit(cfg.retries) /\ att' = <<>> /\ nd' = 0 /\ inj' = FALSE
     /\ cur' = NONE /\ pend' = "" /\ rcur' = 0 /\ err' = "" /\ plan' = ""
     /\ clean' = FALSE /\ rel' = cfg.release
-    /\ UNCHANGED <<cfg, queue, conns, socks, resp, rof, outs, hist, ncut>>
+    /\ UNCHANGED <<cfg, queue, conns, socks, resp, rof, outs, hist, ncut, leases>>
 
 EndReq(out, res, cls, k) ==
     /\ pc' = "idle"
     /\ rof' = Append(rof, k)
     /\ outs' = Append(outs, [res |-> res, cls |-> cls, inj |-> inj \/ cls = "interrupt"])
-    /\ hist' = Append(hist, Step("req", Len(rof) + 1, "", out))
+    /\ hist' = Append(hist, Step("req", Len(rof) + 1, IF pc = "prefail" THEN "badarg" ELSE "", out))
+
+(* ---- the request fails before any checkout: urlopen(timeout=<not a number>) -> ValueError from _get_timeout. ---- *)
+(* Design: the caller gets its ValueError and the pool is not touched.  The named deviation PutWithoutCheckout   *)
+(* is the tree in which _get_timeout sits inside urlopen's try block: the finally clause sees an unclean exit    *)
+(* with conn = None and gives a placeholder "back" although nothing was taken (phantom slot; on a full blocking  *)
+(* queue FullPoolError replaces the ValueError).  TLC must refute it (SlotsConserved).                           *)
+PreFail ==
+    /\ pc = "prefail"
+    /\ LET w == IF Has("PutWithoutCheckout") THEN WPut(World, NONE) ELSE World IN
+       /\ queue' = w.q /\ conns' = w.cn /\ socks' = w.sk /\ resp' = w.rs /\ leases' = w.ls
+       /\ IF w.full /\ cfg.block THEN EndReq("FullPoolError", "raised", "urllib3", 0)
+          ELSE EndReq("ValueError", "raised", "caller", 0)
+    /\ UNCHANGED <<cfg, cur, plan, att, ret, err, clean, rel, pend, rcur, nd, inj, ncut>>
 
 (* ---- _get_conn + the environment's choice of this attempt's outcome ---- *)
 GetConn ==
     /\ pc = "get"
-    /\ clean' = FALSE /\ rel' = cfg.release /\ err' = "" /\ rcur' = 0
+    /\ clean' = FALSE /\ rel' = cfg.release /\ rcur' = 0
     /\ IF queue = <<>> /\ cfg.block
        THEN \* queue.Empty -> EmptyPoolError; except arm: clean_exit, no release
-            /\ EndReq("EmptyPoolError", "raised", "urllib3", 0)
-            /\ UNCHANGED <<cfg, queue, conns, socks, resp, cur, plan, att, ret, pend, nd, inj, ncut>>
+            /\ EndReq("EmptyPoolError", "raised", "urllib3", 0) /\ err' = ""
+            /\ UNCHANGED <<cfg, queue, conns, socks, resp, cur, plan, att, ret, pend, nd, inj, ncut, leases>>
        ELSE LET item == IF queue = <<>> THEN NONE ELSE QTop(queue)
                 q1 == IF queue = <<>> THEN queue ELSE QRest(queue)
-                w0 == [World EXCEPT !.q = q1]
+                w0 == [World EXCEPT !.q = q1, !.ls = @ + 1]
                 \* is_connection_dropped: no socket, or readable (EOF / unsolicited or unread bytes)
                 dropped == item # NONE /\ (conns[item].sock = 0 \/ Dirty(w0, conns[item].sock))
                 w1 == IF dropped /\ ~Has("M_DroppedNotClosed") THEN WClose(w0, item)
                       ELSE IF dropped /\ conns[item].sock # 0
                            THEN [w0 EXCEPT !.cn[item] = [sock |-> 0, unfin |-> 0, prox |-> FALSE]]  \* mutant: forgotten
                            ELSE w0
-                w2 == IF item = NONE THEN [w1 EXCEPT !.cn = Append(@, [sock |-> 0, unfin |-> 0, prox |-> FALSE])] ELSE w1
-                c == IF item = NONE THEN Len(w2.cn) ELSE item
-                alphabet == IF att = <<>> THEN FirstOutcomes ELSE LaterOutcomes
-                allowed == IF Stale(w2, c) THEN {"x_stale"}
-                           ELSE IF w2.cn[c].sock # 0 THEN alphabet \ ConnectSyms ELSE alphabet IN
-            /\ \E sym \in allowed :
-                  /\ plan' = sym /\ att' = Append(att, sym)
-            /\ cur' = c /\ queue' = w2.q /\ conns' = w2.cn /\ socks' = w2.sk /\ resp' = w2.rs
-            /\ pc' = "connect"
-            /\ UNCHANGED <<cfg, rof, ret, pend, nd, inj, outs, hist, ncut>>
+                alphabet == IF att = <<>> THEN FirstOutcomes ELSE LaterOutcomes IN
+            /\ \E sym \in alphabet \cup {"x_stale"} :
+                  IF sym \in NewSyms
+                  THEN \* self._new_conn() raises: the slot is checked out, urlopen's `conn` is still None
+                       /\ item = NONE
+                       /\ plan' = sym /\ att' = Append(att, sym)
+                       /\ cur' = NONE /\ queue' = w1.q /\ conns' = w1.cn /\ socks' = w1.sk /\ resp' = w1.rs
+                       /\ leases' = w1.ls
+                       /\ err' = IF sym = "n_boom" THEN "Interrupt" ELSE "HTTPException"
+                       /\ inj' = (inj \/ sym = "n_boom")
+                       /\ pc' = "except"
+                  ELSE LET w2 == IF item = NONE THEN [w1 EXCEPT !.cn = Append(@, [sock |-> 0, unfin |-> 0, prox |-> FALSE])]
+                                 ELSE w1
+                           c == IF item = NONE THEN Len(w2.cn) ELSE item IN
+                       /\ IF Stale(w2, c) THEN sym = "x_stale"
+                          ELSE sym \in alphabet /\ sym # "x_stale" /\ (w2.cn[c].sock # 0 => sym \notin ConnectSyms)
+                       /\ plan' = sym /\ att' = Append(att, sym)
+                       /\ cur' = c /\ queue' = w2.q /\ conns' = w2.cn /\ socks' = w2.sk /\ resp' = w2.rs
+                       /\ leases' = w2.ls
+                       /\ err' = "" /\ pc' = "connect" /\ UNCHANGED inj
+            /\ UNCHANGED <<cfg, rof, ret, pend, nd, outs, hist, ncut>>
 
 (* ---- HTTPConnection.connect (auto_open on the first send) ---- *)
 Connect ==
@@ -226,7 +263,7 @@ Connect ==
        ELSE /\ socks' = Append(socks, [open |-> TRUE, cut |-> FALSE])
             /\ conns' = [conns EXCEPT ![cur].sock = Len(socks) + 1, ![cur].prox = (cfg.route = "fwd")]
             /\ nd' = nd + 1 /\ pc' = "send" /\ UNCHANGED <<err, inj>>
-    /\ UNCHANGED <<cfg, queue, resp, rof, cur, plan, att, ret, clean, rel, pend, rcur, outs, hist, ncut>>
+    /\ UNCHANGED <<cfg, queue, resp, rof, cur, plan, att, ret, clean, rel, pend, rcur, outs, hist, ncut, leases>>
 
 (* ---- conn.request(): one sendall; EPIPE / ECONNRESET are swallowed by _make_request ---- *)
 Send ==
@@ -234,7 +271,8 @@ Send ==
     /\ IF plan = "s_oserr" THEN err' = "OSError" /\ pc' = "except" /\ UNCHANGED inj
        ELSE IF plan = "s_boom" THEN err' = "Interrupt" /\ pc' = "except" /\ inj' = TRUE
        ELSE pc' = "recv" /\ UNCHANGED <<err, inj>>
-    /\ UNCHANGED <<cfg, queue, conns, socks, resp, rof, cur, plan, att, ret, clean, rel, pend, rcur, nd, outs, hist, ncut>>
+    /\ UNCHANGED <<cfg, queue, conns, socks, resp, rof, cur, plan, att, ret, clean, rel, pend, rcur, nd, outs, hist, ncut,
+                   leases>>
 
 IsClose(sym) == sym \in {"ok_close", "s503_close", "r302_close"}
 PeerCloses(sym) == IsClose(sym) \/ sym = "short"
@@ -272,13 +310,13 @@ Recv ==
             /\ conns' = w2.cn /\ socks' = w2.sk /\ resp' = w2.rs /\ rcur' = k
             /\ pc' = IF cfg.preload THEN "preload" ELSE "ok"
             /\ UNCHANGED <<err, inj>>
-    /\ UNCHANGED <<cfg, queue, rof, cur, plan, att, ret, clean, rel, pend, nd, outs, hist, ncut>>
+    /\ UNCHANGED <<cfg, queue, rof, cur, plan, att, ret, clean, rel, pend, nd, outs, hist, ncut, leases>>
 
 (* ---- HTTPResponse.__init__(preload_content=True): read() before _connection is known ---- *)
 Preload ==
     /\ pc = "preload"
     /\ LET x == ReadAll(World, rcur) IN
-       /\ queue' = x.w.q /\ conns' = x.w.cn /\ socks' = x.w.sk /\ resp' = x.w.rs
+       /\ queue' = x.w.q /\ conns' = x.w.cn /\ socks' = x.w.sk /\ resp' = x.w.rs /\ leases' = x.w.ls
        /\ IF x.out = "ok" THEN pc' = "ok" /\ UNCHANGED <<err, inj>>
           ELSE /\ err' = x.out /\ pc' = "except" /\ inj' = (inj \/ x.out = "Interrupt")
     /\ UNCHANGED <<cfg, rof, cur, plan, att, ret, clean, rel, pend, rcur, nd, outs, hist, ncut>>
@@ -293,7 +331,7 @@ Ok ==
     /\ pc = "ok"
     /\ LET w0 == [World EXCEPT !.rs[rcur].conn = IF cfg.release THEN NONE ELSE cur]
            w1 == IF cfg.preload /\ ~cfg.release /\ ~Has("C01_F1") THEN WRelease(w0, rcur) ELSE w0 IN
-       /\ queue' = w1.q /\ conns' = w1.cn /\ socks' = w1.sk /\ resp' = w1.rs
+       /\ queue' = w1.q /\ conns' = w1.cn /\ socks' = w1.sk /\ resp' = w1.rs /\ leases' = w1.ls
     /\ clean' = TRUE /\ pc' = "finally"
     /\ UNCHANGED <<cfg, rof, cur, plan, att, ret, err, rel, pend, rcur, nd, inj, outs, hist, ncut>>
 
@@ -309,13 +347,14 @@ Except ==
     /\ pc = "except"
     /\ IF err \notin Caught
        THEN /\ pend' = err /\ UNCHANGED ret       \* propagates as it is (BaseException, or a class the tuple misses)
-       ELSE LET new == Translate(err, cfg.route = "fwd", conns[cur].prox)
+       ELSE LET \* `conn and conn.proxy and not conn.has_connected_to_proxy`: no wrapping while conn is None
+                new == Translate(err, cfg.route = "fwd" /\ cur # NONE, IF cur = NONE THEN TRUE ELSE conns[cur].prox)
                 r2 == [ret EXCEPT !.total = DecTotal(@)] IN
             IF ret.total = FalseV THEN pend' = new /\ UNCHANGED ret
             ELSE IF Exhausted(r2) THEN pend' = "MaxRetryError" /\ ret' = r2
             ELSE pend' = "" /\ ret' = r2
     /\ clean' = FALSE /\ pc' = "finally"
-    /\ UNCHANGED <<cfg, queue, conns, socks, resp, rof, cur, plan, att, err, rel, rcur, nd, inj, outs, hist, ncut>>
+    /\ UNCHANGED <<cfg, queue, conns, socks, resp, rof, cur, plan, att, err, rel, rcur, nd, inj, outs, hist, ncut, leases>>
 
 ClassOf(e) == IF e = "Interrupt" THEN "interrupt"
               ELSE IF e \in {"OSError", "ConnectionError", "HTTPException", "BaseSSLError"} THEN "raw" ELSE "urllib3"
@@ -326,10 +365,15 @@ Finally ==
     /\ LET w0 == World
            w1 == IF ~clean THEN WClose(w0, cur) ELSE w0
            c1 == IF ~clean THEN NONE ELSE cur
-           rel1 == IF ~clean THEN ~Has("M_FinallyNoRelease") ELSE rel
+           \* deviation ReleaseOnlyIfConn: `release_this_conn = True` indented under `if conn:` -- a failure after
+           \* the checkout but before a connection object exists (cur = NONE) then releases only if release_conn
+           rel1 == IF clean THEN rel
+                   ELSE IF Has("M_FinallyNoRelease") THEN FALSE
+                   ELSE IF Has("ReleaseOnlyIfConn") /\ cur = NONE THEN rel
+                   ELSE TRUE
            w2 == IF rel1 THEN WPut(w1, c1) ELSE w1
            fullerr == w2.full /\ cfg.block IN
-       /\ queue' = w2.q /\ conns' = w2.cn /\ socks' = w2.sk /\ resp' = w2.rs
+       /\ queue' = w2.q /\ conns' = w2.cn /\ socks' = w2.sk /\ resp' = w2.rs /\ leases' = w2.ls
        /\ cur' = c1 /\ rel' = rel1
        /\ IF fullerr THEN EndReq("FullPoolError", "raised", "urllib3", 0) /\ UNCHANGED <<att, plan>>
           ELSE IF pend # "" THEN EndReq(pend, "raised", ClassOf(pend), 0) /\ UNCHANGED <<att, plan>>
@@ -350,9 +394,9 @@ After ==
        THEN \* the response goes to the caller
             /\ resp' = [resp EXCEPT ![rcur].live = NeedsDisposal]
             /\ EndReq(st, "response", "none", rcur)
-            /\ UNCHANGED <<queue, conns, socks, ret, inj>>
+            /\ UNCHANGED <<queue, conns, socks, ret, inj, leases>>
        ELSE \* response.drain_conn(), then raise MaxRetryError or recurse
-            /\ queue' = d.w.q /\ conns' = d.w.cn /\ socks' = d.w.sk /\ resp' = d.w.rs
+            /\ queue' = d.w.q /\ conns' = d.w.cn /\ socks' = d.w.sk /\ resp' = d.w.rs /\ leases' = d.w.ls
             /\ ret' = r2 /\ UNCHANGED inj
             /\ IF d.w.full /\ cfg.block THEN EndReq("FullPoolError", "raised", "urllib3", 0)
                ELSE IF Exhausted(r2) THEN EndReq("MaxRetryError", "raised", "urllib3", 0)
@@ -368,7 +412,7 @@ DisposeResp ==
                 x == Dispose(World, k, how)
                 fullerr == x.w.full /\ cfg.block
                 out == IF fullerr /\ x.out # "Interrupt" THEN "FullPoolError" ELSE x.out IN
-            /\ queue' = x.w.q /\ conns' = x.w.cn /\ socks' = x.w.sk
+            /\ queue' = x.w.q /\ conns' = x.w.cn /\ socks' = x.w.sk /\ leases' = x.w.ls
             /\ resp' = [x.w.rs EXCEPT ![k].live = FALSE]
             /\ outs' = Append(outs, [res |-> IF out = "ok" THEN "response" ELSE "raised",
                                      cls |-> IF out = "ok" THEN "none" ELSE ClassOf(out), inj |-> out = "Interrupt"])
@@ -387,7 +431,7 @@ PeerCut ==
          /\ socks' = [socks EXCEPT ![s].cut = TRUE]
          /\ hist' = Append(hist, [op |-> "cut", id |-> k, atts |-> <<>>, how |-> "", out |-> "", dials |-> 0, dev |-> ""])
     /\ ncut' = 1
-    /\ UNCHANGED <<cfg, queue, conns, resp, rof, pc, cur, plan, att, ret, err, clean, rel, pend, rcur, nd, inj, outs>>
+    /\ UNCHANGED <<cfg, queue, conns, resp, rof, pc, cur, plan, att, ret, err, clean, rel, pend, rcur, nd, inj, outs, leases>>
 
 Quiescent == pc \in {"idle", "done"} /\ Live = {}
 
@@ -395,9 +439,9 @@ Finish ==
     /\ pc = "idle" /\ Live = {} /\ Len(rof) = MaxReqs
     /\ pc' = "done"
     /\ UNCHANGED <<cfg, queue, conns, socks, resp, rof, cur, plan, att, ret, err, clean, rel, pend, rcur, nd, inj,
-                   outs, hist, ncut>>
+                   outs, hist, ncut, leases>>
 
-Next == StartReq \/ GetConn \/ Connect \/ Send \/ Recv \/ Preload \/ Ok \/ Except \/ Finally \/ After
+Next == StartReq \/ PreFail \/ GetConn \/ Connect \/ Send \/ Recv \/ Preload \/ Ok \/ Except \/ Finally \/ After
         \/ DisposeResp \/ PeerCut \/ Finish
 Spec == Init /\ [][Next]_vars
 
@@ -409,11 +453,12 @@ NoDuplicate        == NoDuplicateOn(queue)
 SlotsRestored      == Quiescent => SlotsRestoredOn(queue, cfg.n)
 NoOrphanSocket     == Quiescent => NoOrphanOn(QSocks, OpenSocks)
 BlockBound         == BlockBoundOn(cfg.block, OpenSocks, cfg.n)
+SlotsConserved     == SlotsConservedOn(Len(queue), leases, cfg.n, cfg.block)
 OnlyUrllib3Errors  == \A i \in 1..Len(outs) : OnlyUrllib3On(outs[i])
 InterruptsPropagate == \A i \in 1..Len(outs) : InterruptsOn(outs[i])
 \* an interrupt in flight is never replaced: checked while it travels through except/finally
 InterruptInFlight  == (pc = "finally" /\ err = "Interrupt") => pend = "Interrupt"
-TypeOK == /\ pc \in {"idle", "get", "connect", "send", "recv", "preload", "ok", "except", "finally", "after", "done"}
+TypeOK == /\ pc \in {"idle", "prefail", "get", "connect", "send", "recv", "preload", "ok", "except", "finally", "after", "done"}
           /\ Len(queue) <= cfg.n
           /\ \A i \in 1..Len(queue) : queue[i] \in 0..Len(conns)
 =============================================================================
